@@ -20,6 +20,14 @@ CHECKS = {
         "left early by return; the specification's truthiness is the property's (only false, 0, \"\" and nil are falsy) and its "
         "bindings are the documented ones. The real library must render the same bytes (maps compared as multisets).",
    design_ref="DESIGN.md §5 C05", note=EXEC_TRUST),
+ "C09": dict(
+   technique="TLA+ JetExec (DoInclude/IncludeExit, DoExec/ExecExit with discard writer, return register, root-ancestor selection) "
+             "model-checked by TLC over Gen_C09; every behaviour replayed on the real interpreter",
+   text="TLC enumerates every call site kind (include, exec, includeIfExists, each with and without explicit context, and with a "
+        "missing template) inside every wrapper path up to the bound, callee shapes that declare variables, rebind '.', yield a "
+        "block of the includer and extend 0-2 layouts, and 15 placements of return; the real library must render the same bytes "
+        "around the call site, bind the same exec value and leak no variable or context.",
+   design_ref="DESIGN.md §5 C09", note=EXEC_TRUST),
  "C07": dict(
    technique="TLA+ JetExec interpreter machine model-checked by TLC over scoping program families (Gen_C07: wrapper paths x "
              "declare/rebind/shadow focals, loop-variable capture per ranger kind); every behaviour replayed on the real interpreter",
